@@ -113,6 +113,24 @@ pub fn check_partitions(ctx: &Ctx, reg: &Reg, s: &Spec, bytes: &[u8]) -> Result<
                 ri
             );
         }
+        if s.tr == Trait::FromAttributes {
+            // the style of an attribute (outer `#[..]` / inner `#![..]`) is no part of selection, merging or forwarding
+            let mask = d.u64() | 1 << d.below(8);
+            let rs = summary(&call_attrs_styled(entry, s, &r.text, mask)?);
+            let norm = |x: &Result<Val, Vec<String>>| format!("{:?}", x).replace("# !", "#").replace("#!", "#");
+            if norm(&rs) != norm(&ri) {
+                fail!(
+                    "c08:inner-style-changes-result",
+                    "{}: the same attributes read differently when some are inner-style (mask {:#x}).\n outer: `{}` -> {:?}\n styled -> {:?}",
+                    emit_short(s),
+                    mask,
+                    r.text,
+                    ri,
+                    rs
+                );
+            }
+            ctx.class("attrs:inner-style");
+        }
         if comp.len() >= 2 && lay.foreign.iter().any(|(_, f)| f.contains("a b ;") || f.contains("= = =")) {
             ctx.nontrivial(&(s.id, &r.text));
         }
